@@ -336,4 +336,26 @@ example : CompCalc.parseIsotopeMods [⟨.str "13C".toList, 1⟩] = .ok [(kC, Spe
 example : Label.labelShift (fun e => if e = Spec.k "13C" then 13 else if e = kC then 12 else 1)
     [(kC, 2), (kH, 5), (kN, 1), (kO, 2)] [(kC, Spec.k "13C")] = 2 := by decide +kernel
 
+/-- A caller that rounds the mass to `p` places FIRST and then asks `adjust_mz` for `p` places (the fragment path: `fragment()` hands the
+rounded fragment mass to `adjust_mz`) is within `½·10⁻ᵖ·(1 + 1/z)` of the exact quotient - the half-unit bound does not hold for it.
+`mz()` itself rounds once (it asks `mass` for the unrounded value): `mz_eq_spec_partial`, `mass_precision_last`. -/
+theorem mz_double_rounding_bound (m : Rat) (z p : Nat) (hz : 0 < z) :
+    Mass.adjustMz (pyRound m (p : Int)) (some (z : Int)) (some (p : Int)) - m / (z : Rat) ≤ 1 / 2 / pow10 p * (1 + 1 / (z : Rat)) ∧
+    m / (z : Rat) - Mass.adjustMz (pyRound m (p : Int)) (some (z : Int)) (some (p : Int)) ≤ 1 / 2 / pow10 p * (1 + 1 / (z : Rat)) := by
+  have hz' : (0 : Rat) < (z : Rat) := by exact_mod_cast hz
+  have hne : ¬ ((z : Int) = 0) := by exact_mod_cast hz.ne'
+  have hm : Mass.adjustMz (pyRound m (p : Int)) (some (z : Int)) (some (p : Int))
+      = pyRound (pyRound m (p : Int) / (z : Rat)) (p : Int) := by
+    unfold Mass.adjustMz
+    simp [roundOpt, hz.ne']
+  rw [hm]
+  have b1 := pyRound_bound (pyRound m (p : Int) / (z : Rat)) p
+  have b2 := pyRound_bound m p
+  have e1 : (pyRound m (p : Int) - m) / (z : Rat) ≤ 1 / 2 / pow10 p / (z : Rat) := div_le_div_of_nonneg_right b2.1 hz'.le
+  have e2 : (m - pyRound m (p : Int)) / (z : Rat) ≤ 1 / 2 / pow10 p / (z : Rat) := div_le_div_of_nonneg_right b2.2 hz'.le
+  have k : 1 / 2 / pow10 p * (1 + 1 / (z : Rat)) = 1 / 2 / pow10 p + 1 / 2 / pow10 p / (z : Rat) := by ring
+  rw [k]
+  rw [sub_div] at e1 e2
+  constructor <;> linarith [b1.1, b1.2]
+
 end Pept.C02
